@@ -131,7 +131,7 @@ class SmtProc:
             depth += line.count('(') - line.count(')')
             if depth <= 0 and txt.strip():
                 break
-        return {k: v == 'true' for k, v in re.findall(r'\((\S+) (true|false)\)', txt)}
+        return {k: v == 'true' for k, v in re.findall(r'\(([^\s()]+) (true|false)\)', txt)}
 
     def push(self):
         self.send('(push 1)\n')
